@@ -13,8 +13,8 @@ import (
 	"time"
 
 	"golang.org/x/tools/go/packages"
-	"golang.org/x/tools/go/ssa"
-	"golang.org/x/tools/go/ssa/ssautil"
+	ssa "xvc/xssa"
+	"xvc/xssa/ssautil"
 )
 
 // Mod is the module path prefix of the code under analysis.
